@@ -246,19 +246,21 @@ namespace awkward {
   const ContentPtr
   IndexedGenericBuilder::snapshot() const {
     Index64 index(index_.ptr(), 0, index_.length(), kernel::lib::cpu);
+    // array_ may itself be an option-type node (ByteMaskedArray, BitMaskedArray,
+    // UnmaskedArray), which an IndexedArray must not contain directly
     if (hasnull_) {
-      return std::make_shared<IndexedOptionArray64>(
+      return IndexedOptionArray64(
         Identities::none(),
         util::Parameters(),
         index,
-        array_);
+        array_).simplify_optiontype();
     }
     else {
-      return std::make_shared<IndexedArray64>(
+      return IndexedArray64(
         Identities::none(),
         util::Parameters(),
         index,
-        array_);
+        array_).simplify_optiontype();
     }
   }
 
